@@ -58,17 +58,8 @@ def stored_layout(stored: bytes, iv_size: Optional[int], trex: Optional[dict]) -
     j = tix[0]
     traf = moof.children[j]
     r = mp4walk.resolve_trun(traf, trex)
-    # dashlive's parser defers senc / PIFF boxes that come before their saiz peer and re-inserts them
-    # afterwards (Mp4Atom.load, REQUIRED_PEERS); with two or more deferred boxes the re-insertion
-    # changes their order (a parse/encode round-trip matter, reported to C04) – not modelled
-    deferred = 0
-    for c in traf.children:
-        if c.type == "saiz":
-            break
-        if c.type == "senc" or c.is_piff:
-            deferred += 1
-    if deferred > 1:
-        raise OutOfModel("two or more senc/PIFF boxes in front of the saiz (re-ordered by the parser's deferral)")
+    # (stored trafs with several senc/PIFF boxes in front of their saiz used to be re-ordered by the
+    # parser's deferred re-insertion; fixed in /repo c811f80 by C04, so they are inside the model)
     items = []
     for c in traf.children:
         f = c.fields
